@@ -183,10 +183,13 @@ Definition ST_REJECTED : Z := 100.
 Definition ST_REFUSED : Z := 101.
 Definition ST_OK : Z := 200.
 
-(* a request that is waiting for dial data *)
+(* a request in flight: waiting for its DialRequest message (w_req = true; the
+   address fields are then unused) or for dial data *)
 Record wstream := mkW {
-  w_sid : Z; w_peer : Z; w_addr : addr; w_idx : Z; w_remain : Z
+  w_sid : Z; w_peer : Z; w_addr : addr; w_idx : Z; w_remain : Z; w_req : bool; w_obs : Z
 }.
+
+Definition no_addr : addr := mkAddr 0 false false false 0.
 
 Record sstate := mkS { s_rl : rl; s_wait : list wstream }.
 
@@ -197,6 +200,11 @@ Inductive sop :=
     (* a stream from peer p arrives at time t; good = the first message is a
        DialRequest (otherwise: garbage, another message type, or EOF);
        n = the numBytes the server's RNG draws if it asks for data *)
+| SOpen (sid p obs_ip t : Z)
+    (* a stream from peer p arrives at time t but the client does not send its
+       request yet: the server has called Accept and blocks reading *)
+| SLate (sid t : Z) (good : bool) (addrs : list addr) (n : Z)
+    (* the first message of such a stream arrives at time t *)
 | SData (sid : Z) (m : dmsg)    (* the client writes one dial-data message *)
 | SEof (sid : Z)                (* the client closes / resets its side *)
 | STimeout (t : Z).             (* the clock passes every open stream's deadline *)
@@ -238,9 +246,42 @@ Definition s_step (c : rl_cfg) (s : sstate) (o : sop) : sstate * list sev :=
             else if n <=? 0 then
               let '(l3, evs) := finish_dial l2 sid p a idx in
               (mkS l3 (s_wait s), EAsk sid idx n :: evs)
-            else (mkS l2 (s_wait s ++ [mkW sid p a idx n]), [EAsk sid idx n])
+            else (mkS l2 (s_wait s ++ [mkW sid p a idx n false obs]), [EAsk sid idx n])
           else
             let '(l3, evs) := finish_dial l1 sid p a idx in (mkS l3 (s_wait s), evs)
+      end
+      end
+  | SOpen sid p obs t =>
+      match find_w sid (s_wait s) with
+      | Some _ => (s, [])
+      | None =>
+      let '(l1, ok) := rl_accept c (s_rl s) p t in
+      if negb ok then (mkS l1 (s_wait s), [ERespond sid ST_REJECTED 0])
+      else (mkS l1 (s_wait s ++ [mkW sid p no_addr 0 0 true obs]), [])
+      end
+  | SLate sid t good addrs n =>
+      match find_w sid (s_wait s) with
+      | None => (s, [])
+      | Some w =>
+      if negb (w_req w) then (s, []) else
+      let p := w_peer w in
+      let l1 := s_rl s in
+      let rest := remove_w sid (s_wait s) in
+      if negb good then (mkS (rl_complete l1 p) rest, [EReset sid])
+      else match select_addr addrs with
+      | None => (mkS (rl_complete l1 p) rest, [ERespond sid ST_REFUSED 0])
+      | Some (idx, a) =>
+          if need_data (w_obs w) a then
+            let '(l2, ok2) := rl_accept_dd c l1 t in
+            if negb ok2 then (mkS (rl_complete l2 p) rest, [ERespond sid ST_REJECTED 0])
+            else if n <=? 0 then
+              let '(l3, evs) := finish_dial l2 sid p a idx in
+              (mkS l3 rest, EAsk sid idx n :: evs)
+            else (mkS l2 (map (fun x => if w_sid x =? sid
+                                        then mkW (w_sid x) (w_peer x) a idx n false (w_obs x) else x)
+                              (s_wait s)), [EAsk sid idx n])
+          else
+            let '(l3, evs) := finish_dial l1 sid p a idx in (mkS l3 rest, evs)
       end
       end
   | SData sid m =>
@@ -248,6 +289,7 @@ Definition s_step (c : rl_cfg) (s : sstate) (o : sop) : sstate * list sev :=
       | None => (s, [])
       | Some w =>
           let rest := remove_w sid (s_wait s) in
+          if w_req w then (mkS (rl_complete (s_rl s) (w_peer w)) rest, [EReset sid]) else
           match m with
           | MBroken => (mkS (rl_complete (s_rl s) (w_peer w)) rest, [EReset sid])
           | MFull L _ =>
@@ -256,7 +298,7 @@ Definition s_step (c : rl_cfg) (s : sstate) (o : sop) : sstate * list sev :=
               | DDMore r' =>
                   (mkS (s_rl s)
                        (map (fun x => if w_sid x =? sid
-                                      then mkW (w_sid x) (w_peer x) (w_addr x) (w_idx x) r' else x)
+                                      then mkW (w_sid x) (w_peer x) (w_addr x) (w_idx x) r' false (w_obs x) else x)
                             (s_wait s)), [])
               | DDDone =>
                   let '(l3, evs) := finish_dial (s_rl s) sid (w_peer w) (w_addr w) (w_idx w) in
